@@ -868,3 +868,338 @@ Proof.
   destruct (s2 =? 0) eqn:E2; [apply Z.eqb_eq in E2; lia|].
   rewrite !Z.mod_small in E by lia. apply seed_words_inj; auto; lia.
 Qed.
+
+(* ------------------------------------------------------------------ Marsaglia-Zaman: swb is multiplication by W^-1 mod MODULUS *)
+Definition hwf (st : list Z * Z) : Prop :=
+  length (fst st) = 12%nat /\ Forall word_ok (fst st) /\ (snd st = 0 \/ snd st = 1).
+
+Ltac list12 h H :=
+  destruct h as [|?a0 [|?a1 [|?a2 [|?a3 [|?a4 [|?a5 [|?a6 [|?a7 [|?a8 [|?a9 [|?a10 [|?a11 [|? ?]]]]]]]]]]]]]; try discriminate H.
+
+Lemma swb_wf : forall st, hwf st -> hwf (swb st).
+Proof.
+  intros [h c] (Hl & Hx & Hc). cbn [fst snd] in *. unfold swb, hwf. cbn [fst snd].
+  destruct h as [|a h]; [discriminate|]. cbn [tl length] in *. split; [|split].
+  - rewrite app_length. cbn [length]. lia.
+  - apply Forall_app. split; [inversion Hx; auto|]. constructor; [|constructor].
+    unfold word_ok. apply Z.mod_pos_bound. reflexivity.
+  - destruct (_ <? 0); auto.
+Qed.
+
+Lemma iter_swb_wf : forall n st, hwf st -> hwf (iter n swb st).
+Proof. intros. apply iter_inv; auto using swb_wf. Qed.
+
+Lemma mznum_swb : forall st, hwf st ->
+  W * mznum (swb st) = mznum st + MODULUS * zn (fst (swb st)) 11.
+Proof.
+  intros [h c] (Hl & Hx & Hc). cbn [fst snd] in *. list12 h Hl. clear Hl.
+  assert (Hb : forall k, 0 <= k < 12 -> word_ok (zn [a0; a1; a2; a3; a4; a5; a6; a7; a8; a9; a10; a11] k))
+    by (intros; apply Forall_zn; auto).
+  pose proof (Hb 0 ltac:(lia)) as B0. pose proof (Hb 7 ltac:(lia)) as B7. clear Hb Hx.
+  unfold swb. cbn [fst]. change (zn [a0; a1; a2; a3; a4; a5; a6; a7; a8; a9; a10; a11] 7) with a7 in *.
+  change (zn [a0; a1; a2; a3; a4; a5; a6; a7; a8; a9; a10; a11] 0) with a0 in *.
+  cbn [tl app]. set (d := a7 - a0 - c).
+  change (zn [a1; a2; a3; a4; a5; a6; a7; a8; a9; a10; a11; d mod W] 11) with (d mod W).
+  assert (Hd : - W <= d < W) by (unfold word_ok in *; unfold d; lia).
+  pose proof (norm_mod d Hd) as Hn. unfold norm in Hn.
+  set (c' := if d <? 0 then 1 else 0) in *.
+  assert (Hv : d mod W = d + c' * W).
+  { apply (f_equal fst) in Hn. unfold c'. destruct (d <? 0); cbn [fst] in Hn; lia. }
+  rewrite Hv. unfold mznum. cbn [poly skipn]. unfold MODULUS, d. ring.
+Qed.
+
+Lemma mz_iter : forall n st, hwf st ->
+  (W ^ Z.of_nat n * mznum (iter n swb st)) mod MODULUS = mznum st mod MODULUS.
+Proof.
+  induction n as [|n IH]; intros st H.
+  - cbn [iter]. change (W ^ Z.of_nat 0) with 1. rewrite Z.mul_1_l. reflexivity.
+  - cbn [iter]. rewrite Nat2Z.inj_succ, Z.pow_succ_r by lia.
+    rewrite <- Z.mul_assoc.
+    rewrite <- Zmult_mod_idemp_r, IH by (apply swb_wf; auto). rewrite Zmult_mod_idemp_r.
+    rewrite mznum_swb by auto. rewrite Z.mul_comm with (n := MODULUS). apply Z_mod_plus_full.
+Qed.
+
+(* ------------------------------------------------------------------ digits *)
+Definition small (u : Z) : Prop := - W < u < W.
+
+Lemma W_pos : 0 < W.
+Proof. reflexivity. Qed.
+
+Lemma poly_zero : forall l, Forall small l -> poly l = 0 -> Forall (fun u => u = 0) l.
+Proof.
+  induction l as [|a l IH]; intros H E; [constructor|]. inversion H as [|? ? Ha Hl]; subst. cbn [poly] in E.
+  unfold small in Ha. pose proof W_pos.
+  assert (poly l = 0) by nia. assert (a = 0) by nia. constructor; auto.
+Qed.
+
+Lemma poly_bound : forall l, Forall small l -> - W ^ Z.of_nat (length l) < poly l < W ^ Z.of_nat (length l).
+Proof.
+  induction l as [|a l IH]; intros H.
+  - cbn [poly length]. change (W ^ Z.of_nat 0) with 1. lia.
+  - inversion H as [|? ? Ha Hl]; subst. specialize (IH Hl). cbn [poly length].
+    rewrite Nat2Z.inj_succ, Z.pow_succ_r by lia. unfold small in Ha. pose proof W_pos.
+    assert (0 < W ^ Z.of_nat (length l)) by (apply Z.pow_pos_nonneg; lia). nia.
+Qed.
+
+Lemma poly_sub : forall a b, length a = length b -> poly (map (fun p => fst p - snd p) (combine a b)) = poly a - poly b.
+Proof.
+  induction a as [|x a IH]; intros [|y b] H; try discriminate; [reflexivity|].
+  cbn [combine map poly fst snd]. rewrite IH by (cbn in H; lia). ring.
+Qed.
+
+Lemma poly_word_bound : forall l, Forall word_ok l -> 0 <= poly l <= W ^ Z.of_nat (length l) - 1.
+Proof.
+  induction l as [|a l IH]; intros H.
+  - cbn [poly length]. change (W ^ Z.of_nat 0) with 1. lia.
+  - inversion H as [|? ? Ha Hl]; subst. specialize (IH Hl). cbn [poly length].
+    rewrite Nat2Z.inj_succ, Z.pow_succ_r by lia. unfold word_ok in Ha. pose proof W_pos.
+    assert (0 < W ^ Z.of_nat (length l)) by (apply Z.pow_pos_nonneg; lia). nia.
+Qed.
+
+Lemma Forall_skipn' : forall (P : Z -> Prop) n l, Forall P l -> Forall P (skipn n l).
+Proof. intros P n l H. rewrite <- (firstn_skipn n l) in H. apply Forall_app in H. tauto. Qed.
+Lemma Forall_firstn' : forall (P : Z -> Prop) n l, Forall P l -> Forall P (firstn n l).
+Proof. intros P n l H. rewrite <- (firstn_skipn n l) in H. apply Forall_app in H. tauto. Qed.
+
+Ltac numW :=
+  let w5 := eval vm_compute in (W ^ 5) in let w7 := eval vm_compute in (W ^ 7) in
+  let w11 := eval vm_compute in (W ^ 11) in let w12 := eval vm_compute in (W ^ 12) in
+  let m := eval vm_compute in MODULUS in let w := eval vm_compute in W in
+  change (W ^ 5) with w5 in *; change (W ^ 7) with w7 in *; change (W ^ 11) with w11 in *;
+  change (W ^ 12) with w12 in *; change MODULUS with m in *; change W with w in *.
+
+(* two zero-carry histories of non-zero words with the same number modulo MODULUS are equal *)
+Lemma mz_inj : forall h h', hwf (h, 0) -> hwf (h', 0) ->
+  Forall (fun w => w <> 0) h -> Forall (fun w => w <> 0) h' ->
+  mznum (h, 0) mod MODULUS = mznum (h', 0) mod MODULUS -> h = h'.
+Proof.
+  intros h h' (Hl & Hx & _) (Hl' & Hx' & _) Hn Hn' E. cbn [fst snd] in *.
+  list12 h Hl. list12 h' Hl'. clear Hl Hl'.
+  (* upper bound of the first, lower bound of the second number, both ways *)
+  assert (UB : forall l, Forall word_ok l -> length l = 12%nat -> mznum (l, 0) <= W ^ 12 - 1).
+  { intros l Hw Hlen. list12 l Hlen. unfold mznum.
+    pose proof (poly_word_bound _ Hw) as P1. cbn [length] in P1. change (Z.of_nat 12) with 12 in P1.
+    assert (Hw5 : Forall word_ok (skipn 7 [a24; a25; a26; a27; a28; a29; a30; a31; a32; a33; a34; a35]))
+      by (apply Forall_skipn'; auto).
+    pose proof (poly_word_bound _ Hw5) as P2. lia. }
+  assert (LB : forall l, Forall word_ok l -> length l = 12%nat -> zn l 11 <> 0 -> W ^ 11 - W ^ 5 + 1 <= mznum (l, 0)).
+  { intros l Hw Hlen Hnz. list12 l Hlen. change (zn [a24; a25; a26; a27; a28; a29; a30; a31; a32; a33; a34; a35] 11) with a35 in Hnz.
+    unfold mznum.
+    assert (Hw5 : Forall word_ok (skipn 7 [a24; a25; a26; a27; a28; a29; a30; a31; a32; a33; a34; a35]) /\
+                  Forall word_ok [a24; a25; a26; a27; a28; a29; a30; a31; a32; a33; a34] /\ word_ok a35)
+      by (split; [apply Forall_skipn'; auto|split; [apply (Forall_firstn' word_ok 11 _ Hw)|apply (Forall_zn word_ok _ 11 Hw); cbn; lia]]).
+    destruct Hw5 as (Hw5 & Hw11 & Hw35).
+    pose proof (poly_word_bound _ Hw5) as P2. pose proof (poly_word_bound _ Hw11) as P3.
+    cbn [length skipn] in P2, P3. change (Z.of_nat 5) with 5 in P2. change (Z.of_nat 11) with 11 in P3.
+    assert (Hs : poly [a24; a25; a26; a27; a28; a29; a30; a31; a32; a33; a34; a35] =
+                 poly [a24; a25; a26; a27; a28; a29; a30; a31; a32; a33; a34] + W ^ 11 * a35) by (cbn [poly]; ring).
+    rewrite Hs. cbn [skipn]. unfold word_ok in Hw35. numW. nia. }
+  assert (Hq : exists q, mznum ([a0; a1; a2; a3; a4; a5; a6; a7; a8; a9; a10; a11], 0) -
+                         mznum ([a12; a13; a14; a15; a16; a17; a18; a19; a20; a21; a22; a23], 0) = q * MODULUS).
+  { assert (Hz : (mznum ([a0; a1; a2; a3; a4; a5; a6; a7; a8; a9; a10; a11], 0) -
+                  mznum ([a12; a13; a14; a15; a16; a17; a18; a19; a20; a21; a22; a23], 0)) mod MODULUS = 0)
+      by (rewrite Zminus_mod, E, Z.sub_diag; reflexivity).
+    apply Z.mod_divide in Hz; [|discriminate]. destruct Hz as [q Hq]. exists q. exact Hq. }
+  destruct Hq as [q Hq].
+  pose proof (UB _ Hx eq_refl) as U1. pose proof (UB _ Hx' eq_refl) as U2.
+  assert (N11 : zn [a0; a1; a2; a3; a4; a5; a6; a7; a8; a9; a10; a11] 11 <> 0 /\
+                zn [a12; a13; a14; a15; a16; a17; a18; a19; a20; a21; a22; a23] 11 <> 0).
+  { rewrite Forall_forall in Hn, Hn'. split; [apply Hn|apply Hn']; unfold zn; apply nth_In; cbn; lia. }
+  pose proof (LB _ Hx eq_refl (proj1 N11)) as L1. pose proof (LB _ Hx' eq_refl (proj2 N11)) as L2.
+  assert (q = 0) by (clear - Hq U1 U2 L1 L2; numW; nia).
+  subst q. clear U1 U2 L1 L2 UB LB N11 E.
+  assert (NZ5 : a5 <> 0) by (apply (Forall_zn (fun w => w <> 0) _ 5 Hn); cbn; lia).
+  assert (NZ17 : a17 <> 0) by (apply (Forall_zn (fun w => w <> 0) _ 5 Hn'); cbn; lia).
+  clear Hn Hn'.
+  repeat match goal with H : Forall _ (_ :: _) |- _ => inversion H; clear H; subst end.
+  repeat match goal with H : Forall _ [] |- _ => clear H end.
+  unfold word_ok in *.
+  set (u0 := a0 - a12). set (u1 := a1 - a13). set (u2 := a2 - a14). set (u3 := a3 - a15).
+  set (u4 := a4 - a16). set (u5 := a5 - a17). set (u6 := a6 - a18). set (u7 := a7 - a19).
+  set (u8 := a8 - a20). set (u9 := a9 - a21). set (u10 := a10 - a22). set (u11 := a11 - a23).
+  assert (S0 : small u0 /\ small u1 /\ small u2 /\ small u3 /\ small u4 /\ small u5 /\ small u6 /\ small u7 /\
+               small u8 /\ small u9 /\ small u10 /\ small u11).
+  { unfold small, u0, u1, u2, u3, u4, u5, u6, u7, u8, u9, u10, u11. clear Hq. numW. repeat split; lia. }
+  assert (D : mznum ([a0; a1; a2; a3; a4; a5; a6; a7; a8; a9; a10; a11], 0) - mznum ([a12; a13; a14; a15; a16; a17; a18; a19; a20; a21; a22; a23], 0)
+              = (poly [u0; u1; u2; u3; u4] - poly [u7; u8; u9; u10; u11]) + W ^ 5 * (u5 + W * poly [u6; u7; u8; u9; u10; u11])).
+  { unfold mznum. cbn [poly skipn]. unfold u0, u1, u2, u3, u4, u5, u6, u7, u8, u9, u10, u11. ring. }
+  rewrite Hq in D. clear Hq.
+  destruct S0 as (S0 & S1 & S2 & S3 & S4 & S5 & S6 & S7 & S8 & S9 & S10 & S11).
+  assert (FA : Forall small [u0; u1; u2; u3; u4]) by (repeat (apply Forall_cons; [assumption|]); apply Forall_nil).
+  assert (FB : Forall small [u7; u8; u9; u10; u11]) by (repeat (apply Forall_cons; [assumption|]); apply Forall_nil).
+  assert (FT : Forall small [u6; u7; u8; u9; u10; u11]) by (repeat (apply Forall_cons; [assumption|]); apply Forall_nil).
+  pose proof (poly_bound _ FA) as BA. pose proof (poly_bound _ FB) as BB. pose proof (poly_bound _ FT) as BT.
+  cbn [length] in BA, BB, BT. change (Z.of_nat 5) with 5 in *. change (Z.of_nat 6) with 6 in *.
+  set (A := poly [u0; u1; u2; u3; u4]) in *. set (B := poly [u7; u8; u9; u10; u11]) in *.
+  set (T' := poly [u6; u7; u8; u9; u10; u11]) in *.
+  assert (HT : u5 + W * T' = 0 \/ u5 + W * T' = 1 \/ u5 + W * T' = -1).
+  { clear - D BA BB. numW. nia. }
+  assert (HT' : T' = 0).
+  { unfold small in S5. destruct HT as [HT|[HT|HT]].
+    - clear - HT S5. numW. nia.
+    - assert (T' = 0 \/ T' = 1) as [|Z1] by (clear - HT S5; numW; nia); auto.
+      exfalso. assert (u5 = 1 - W) by (clear - HT Z1; nia). unfold u5 in *. numW. lia.
+    - assert (T' = 0 \/ T' = -1) as [|Z1] by (clear - HT S5; numW; nia); auto.
+      exfalso. assert (u5 = W - 1) by (clear - HT Z1; nia). unfold u5 in *. numW. lia. }
+  pose proof (poly_zero _ FT HT') as ZT.
+  assert (Z6 : u6 = 0) by (apply (Forall_zn (fun u => u = 0) _ 0 ZT); cbn; lia).
+  assert (Z7 : u7 = 0) by (apply (Forall_zn (fun u => u = 0) _ 1 ZT); cbn; lia).
+  assert (Z8 : u8 = 0) by (apply (Forall_zn (fun u => u = 0) _ 2 ZT); cbn; lia).
+  assert (Z9 : u9 = 0) by (apply (Forall_zn (fun u => u = 0) _ 3 ZT); cbn; lia).
+  assert (Z10 : u10 = 0) by (apply (Forall_zn (fun u => u = 0) _ 4 ZT); cbn; lia).
+  assert (Z11 : u11 = 0) by (apply (Forall_zn (fun u => u = 0) _ 5 ZT); cbn; lia).
+  assert (HB : B = 0) by (unfold B; rewrite Z7, Z8, Z9, Z10, Z11; reflexivity).
+  assert (Z5 : u5 = 0) by (clear - D HT HT' HB BA; rewrite HT', HB in *; numW; nia).
+  assert (HA : A = 0) by (clear - D HT' HB Z5; rewrite HT', HB, Z5 in D; numW; lia).
+  pose proof (poly_zero _ FA HA) as ZA.
+  assert (Z0 : u0 = 0) by (apply (Forall_zn (fun u => u = 0) _ 0 ZA); cbn; lia).
+  assert (Z1 : u1 = 0) by (apply (Forall_zn (fun u => u = 0) _ 1 ZA); cbn; lia).
+  assert (Z2 : u2 = 0) by (apply (Forall_zn (fun u => u = 0) _ 2 ZA); cbn; lia).
+  assert (Z3 : u3 = 0) by (apply (Forall_zn (fun u => u = 0) _ 3 ZA); cbn; lia).
+  assert (Z4 : u4 = 0) by (apply (Forall_zn (fun u => u = 0) _ 4 ZA); cbn; lia).
+  clear - Z0 Z1 Z2 Z3 Z4 Z5 Z6 Z7 Z8 Z9 Z10 Z11.
+  unfold u0, u1, u2, u3, u4, u5, u6, u7, u8, u9, u10, u11 in *.
+  replace a0 with a12 by lia. replace a1 with a13 by lia. replace a2 with a14 by lia. replace a3 with a15 by lia.
+  replace a4 with a16 by lia. replace a5 with a17 by lia. replace a6 with a18 by lia. replace a7 with a19 by lia.
+  replace a8 with a20 by lia. replace a9 with a21 by lia. replace a10 with a22 by lia. replace a11 with a23 by lia.
+  reflexivity.
+Qed.
+
+(* ------------------------------------------------------------------ the first 24 values are two complete histories *)
+Fixpoint lux_after (p n : nat) (g : lux) : lux :=
+  match n with O => g | S n' => lux_after p n' (snd (lux_next p g)) end.
+
+Lemma lux_stream_add : forall p a b g, lux_stream p (a + b) g = lux_stream p a g ++ lux_stream p b (lux_after p a g).
+Proof.
+  induction a as [|a IH]; intros b g; [reflexivity|].
+  cbn [Nat.add lux_stream lux_after]. destruct (lux_next p g) as [v g']. cbn [snd app]. rewrite IH. reflexivity.
+Qed.
+
+Fixpoint zrange (u : Z) (k : nat) : list Z := match k with O => [] | S k' => u :: zrange (u + 1) k' end.
+
+Lemma lux_take : forall p k h c u, u + Z.of_nat k <= 12 ->
+  lux_stream p k (mkLux h c u) = map (zn h) (zrange u k) /\ lux_after p k (mkLux h c u) = mkLux h c (u + Z.of_nat k).
+Proof.
+  induction k as [|k IH]; intros h c u H.
+  - cbn [lux_stream lux_after zrange map]. rewrite Z.add_0_r. auto.
+  - cbn [lux_stream lux_after zrange map]. unfold lux_next. cbn [used hist bor].
+    destruct (u <? 12) eqn:E; [|apply Z.ltb_ge in E; lia]. cbn [snd].
+    destruct (IH h c (u + 1) ltac:(lia)) as [E1 E2]. rewrite E1, E2. split; [reflexivity|]. f_equal. lia.
+Qed.
+
+Lemma lux_next_refill : forall p h c h' c', iter p swb (h, c) = (h', c') ->
+  lux_next p (mkLux h c 12) = (zn h' 0, mkLux h' c' 1).
+Proof. intros p h c h' c' E. unfold lux_next. cbn [used hist bor]. change (12 <? 12) with false. cbv iota. rewrite E. reflexivity. Qed.
+
+Lemma lux_after_add : forall p a b g, lux_after p (a + b) g = lux_after p b (lux_after p a g).
+Proof. induction a as [|a IH]; intros b g; [reflexivity|]. cbn [Nat.add lux_after]. apply IH. Qed.
+
+Lemma lux_stream_1 : forall p g, lux_stream p 1 g = [fst (lux_next p g)].
+Proof. intros. cbn [lux_stream]. destruct (lux_next p g). reflexivity. Qed.
+
+Lemma lux_after_1 : forall p g, lux_after p 1 g = snd (lux_next p g).
+Proof. reflexivity. Qed.
+
+Lemma lux_batch : forall p h c h' c', iter p swb (h, c) = (h', c') -> length h' = 12%nat ->
+  lux_stream p 12 (mkLux h c 12) = h' /\ lux_after p 12 (mkLux h c 12) = mkLux h' c' 12.
+Proof.
+  intros p h c h' c' E Hl.
+  change 12%nat with (1 + 11)%nat at 1 2. rewrite lux_stream_add, lux_after_add, lux_stream_1, lux_after_1.
+  rewrite (lux_next_refill p h c h' c' E). cbn [fst snd].
+  destruct (lux_take p 11 h' c' 1 ltac:(cbn; lia)) as [E1 E2]. rewrite E1, E2. split; [|reflexivity].
+  list12 h' Hl. reflexivity.
+Qed.
+
+Lemma app_inj_len : forall (a a' b b' : list Z), length a = length a' -> a ++ b = a' ++ b' -> a = a' /\ b = b'.
+Proof.
+  induction a as [|x a IH]; intros [|y a'] b b' Hl E; try discriminate; [auto|].
+  cbn [app] in E. injection E as -> E. cbn [length] in Hl. destruct (IH a' b b' ltac:(lia) E) as [-> ->]. auto.
+Qed.
+
+Lemma hwf_len : forall n st, hwf st -> length (fst (iter n swb st)) = 12%nat.
+Proof. intros n st H. apply (iter_swb_wf n st H). Qed.
+
+(* what the two borrows can be when both histories agree *)
+Lemma borrow_cong : forall K p2 c2 c2' p1 c1 c1',
+  (K * (p2 + c2)) mod MODULUS = (p1 + c1) mod MODULUS ->
+  (K * (p2 + c2')) mod MODULUS = (p1 + c1') mod MODULUS ->
+  (K * (c2 - c2')) mod MODULUS = (c1 - c1') mod MODULUS.
+Proof.
+  intros K p2 c2 c2' p1 c1 c1' E1 E2.
+  replace (K * (c2 - c2')) with (K * (p2 + c2) - K * (p2 + c2')) by ring.
+  replace (c1 - c1') with ((p1 + c1) - (p1 + c1')) by ring.
+  rewrite Zminus_mod, E1, E2, <- Zminus_mod. reflexivity.
+Qed.
+
+Lemma W397_not_unit :
+  (W ^ 397) mod MODULUS <> 0 /\ (W ^ 397) mod MODULUS <> 1 /\ (W ^ 397) mod MODULUS <> MODULUS - 1.
+Proof. vm_compute. repeat split; discriminate. Qed.
+
+Lemma length_regs : forall n r, length (regs n r) = n.
+Proof. induction n; intros; cbn [regs length]; auto. Qed.
+
+Lemma spec_facts : forall i, hwf (seed_words_spec i, 0) /\ Forall (fun w => w <> 0) (seed_words_spec i).
+Proof.
+  intros i. rewrite seed_words_spec_eq. unfold hwf. cbn [fst snd]. split; [split; [|split]|].
+  - rewrite !map_length. apply length_regs.
+  - apply map_map_Forall; [apply word_range|apply regs_inv, seed_bits_inv].
+  - auto.
+  - apply map_map_Forall; [apply word_nonzero|apply regs_inv, seed_bits_inv].
+Qed.
+
+(* the first 24 values of the luxury stream, as the two histories they are *)
+Lemma lux_first24 : forall h0 h1 c1 h2 c2, hwf (h0, 0) ->
+  iter 397 swb (h0, 0) = (h1, c1) -> iter 397 swb (h1, c1) = (h2, c2) ->
+  lux_stream 397 24 (mkLux h0 0 12) = h1 ++ h2.
+Proof.
+  intros h0 h1 c1 h2 c2 H0 E1 E2.
+  assert (W1 : hwf (h1, c1)) by (rewrite <- E1; apply iter_swb_wf; auto).
+  assert (W2 : hwf (h2, c2)) by (rewrite <- E2; apply iter_swb_wf; auto).
+  rewrite (lux_stream_add 397 12 12 (mkLux h0 0 12) : lux_stream 397 24 _ = _).
+  destruct (lux_batch 397 h0 0 h1 c1 E1 (proj1 W1)) as [A1 A2]. rewrite A1, A2.
+  destruct (lux_batch 397 h1 c1 h2 c2 E2 (proj1 W2)) as [B1 _]. rewrite B1. reflexivity.
+Qed.
+
+Lemma histories_determine_start : forall h0 h0' h1 c1 c1' h2 c2 c2',
+  hwf (h0, 0) -> hwf (h0', 0) ->
+  iter 397 swb (h0, 0) = (h1, c1) -> iter 397 swb (h1, c1) = (h2, c2) ->
+  iter 397 swb (h0', 0) = (h1, c1') -> iter 397 swb (h1, c1') = (h2, c2') ->
+  mznum (h0, 0) mod MODULUS = mznum (h0', 0) mod MODULUS.
+Proof.
+  intros h0 h0' h1 c1 c1' h2 c2 c2' H0 H0' E1 E2 E1' E2'.
+  assert (W1 : hwf (h1, c1)) by (rewrite <- E1; apply iter_swb_wf; auto).
+  assert (W2 : hwf (h2, c2)) by (rewrite <- E2; apply iter_swb_wf; auto).
+  assert (W1' : hwf (h1, c1')) by (rewrite <- E1'; apply iter_swb_wf; auto).
+  assert (W2' : hwf (h2, c2')) by (rewrite <- E2'; apply iter_swb_wf; auto).
+  pose proof (mz_iter 397 _ W1) as M1. rewrite E2 in M1.
+  pose proof (mz_iter 397 _ W1') as M1'. rewrite E2' in M1'.
+  change (Z.of_nat 397) with 397 in *.
+  assert (C : c1 = c1').
+  { unfold mznum in M1, M1'. pose proof (borrow_cong _ _ _ _ _ _ _ M1 M1') as BC.
+    destruct W1 as (_ & _ & Hc1). destruct W1' as (_ & _ & Hc1'). destruct W2 as (_ & _ & Hc2). destruct W2' as (_ & _ & Hc2').
+    cbn [snd] in *. clear - BC Hc1 Hc1' Hc2 Hc2'.
+    destruct Hc1 as [-> | ->]; destruct Hc1' as [-> | ->]; try reflexivity; exfalso;
+      destruct Hc2 as [-> | ->]; destruct Hc2' as [-> | ->]; vm_compute in BC; discriminate. }
+  subst c1'.
+  pose proof (mz_iter 397 _ H0) as M0. rewrite E1 in M0.
+  pose proof (mz_iter 397 _ H0') as M0'. rewrite E1' in M0'. congruence.
+Qed.
+
+Theorem streams_differ : forall s1 s2, 1 <= s1 < 2147483648 -> 1 <= s2 < 2147483648 ->
+  stream 24 (set_seed s1) = stream 24 (set_seed s2) -> s1 = s2.
+Proof.
+  intros s1 s2 R1 R2 E. rewrite !stream_spec in E. unfold lux_init in E.
+  destruct (s1 =? 0) eqn:Z1; [apply Z.eqb_eq in Z1; lia|].
+  destruct (s2 =? 0) eqn:Z2; [apply Z.eqb_eq in Z2; lia|].
+  rewrite !Z.mod_small in E by lia.
+  destruct (spec_facts s1) as [F1 N1]. destruct (spec_facts s2) as [F2 N2].
+  set (h0 := seed_words_spec s1) in *. set (h0' := seed_words_spec s2) in *.
+  destruct (iter 397 swb (h0, 0)) as [h1 c1] eqn:E1. destruct (iter 397 swb (h1, c1)) as [h2 c2] eqn:E2.
+  destruct (iter 397 swb (h0', 0)) as [h1' c1'] eqn:E1'. destruct (iter 397 swb (h1', c1')) as [h2' c2'] eqn:E2'.
+  rewrite (lux_first24 h0 h1 c1 h2 c2 F1 E1 E2), (lux_first24 h0' h1' c1' h2' c2' F2 E1' E2') in E.
+  assert (L1 : length h1 = 12%nat) by (pose proof (hwf_len 397 _ F1) as L; rewrite E1 in L; exact L).
+  assert (L1' : length h1' = 12%nat) by (pose proof (hwf_len 397 _ F2) as L; rewrite E1' in L; exact L).
+  destruct (app_inj_len h1 h1' h2 h2' ltac:(congruence) E) as [<- <-].
+  pose proof (histories_determine_start h0 h0' h1 c1 c1' h2 c2 c2' F1 F2 E1 E2 E1' E2') as MZ.
+  apply mz_inj in MZ; auto. unfold h0, h0' in MZ. apply seed_words_inj in MZ; auto; lia.
+Qed.
